@@ -181,6 +181,8 @@ class Run:
             futs = [ex.submit(self._run_kani_unit, u, hs) for (u, hs) in todo]
             for f in futs:
                 f.result()
+        # only after every unit of the property is done (units share the dependency cache)
+        prune_first_party(os.path.join(CACHE_ROOT, self.prop))
 
     def _prepare_ws(self, sc, u):
         injections = []
@@ -254,7 +256,6 @@ class Run:
             # counterexamples for failures: concrete playback + native replay on this scratch copy
             if failed and not getattr(self, "no_cex", False):
                 self._kani_counterexamples(sc, u, failed)
-        prune_first_party(os.path.join(CACHE_ROOT, self.prop))
 
     def _kani_counterexamples(self, sc, u, failed):
         from concurrent.futures import ThreadPoolExecutor
